@@ -63,7 +63,7 @@ func (o Option) Value() []byte {
 }
 
 func (o Option) Bytes() []byte {
-	b := make([]byte, o.length+4)
+	b := make([]byte, int(o.length)+4)
 	binary.BigEndian.PutUint16(b[:2], o.tag)
 	binary.BigEndian.PutUint16(b[2:4], o.length)
 	copy(b[4:], o.value)
